@@ -113,7 +113,7 @@ class C05(Sim):
             "interleaving hash); non-trivial = at least one accepted write and one container growth with an attribute alive")
     FAULT_KINDS = ["reject"]
     PROBES = ["index==size", "mutate_default", "extend_by_container", "rejected_write", "read_default", "grow_with_dense",
-              "attr_clear", "container_clear", "widening_write", "vector_attr", "custom_default", "corner_container", "copy_entry", "big_int", "first_use_is_mutation"]
+              "attr_clear", "container_clear", "widening_write", "vector_attr", "custom_default", "corner_container", "copy_entry", "big_int", "first_use_is_mutation", "extend_empty_by_container"]
     QUICK_RUNS = 8000
     THOROUGH_RUNS = 1500000
     BLOCK = 100
@@ -183,6 +183,7 @@ class C05(Sim):
         self.opkinds = set()
         self.attrkinds = set()
         self._fresh_attr = None
+        self.donors = []
 
     # ------------------------------------------------------------------ value generation
     def _gen_scalar(self, r, t):
@@ -623,7 +624,11 @@ class C05(Sim):
                     other.append(it)
             if ev.get("with_attr"):
                 other.create_attribute("foreign", float, 1, dense=True)
+            if n == 0:
+                self.probes["extend_empty_by_container"] += 1
             o = call(c.__iadd__, other)
+            # the caller keeps the container it appended: it must stay what it was, whatever happens to the target afterwards
+            self.donors.append((other, list(items), bool(ev.get("with_attr"))))
             ac = ("corner" if ref.corner else "data") + ("/dense-alive" if ref.attrs else "")
             if not o.ok:
                 # a failed growth must not leave container and attributes misaligned: judged by the state check,
@@ -716,7 +721,27 @@ class C05(Sim):
                       self._step_no % self.cfg["inv_every"] == 0):
             self._fresh_attr = None
             self._check_state(op, rejected)
+            if self.donors:
+                self._check_donors(op)
         return res
+
+    def _check_donors(self, op):
+        """containers that were appended to another one are unchanged: same elements, their own attribute aligned with them"""
+        for other, items, with_attr in self.donors[-6:]:
+            o = call(lambda: (len(other), [other[i] for i in range(len(other))]))
+            if not o.ok:
+                self.exc_violation("aligned-after-growth", op, o, "appended-container", "reading a container that had been appended to another one raised")
+            n, got = o.value
+            want = [a for a, _ in items] if type(other).__name__ == "CornerDataContainer" else [tuple(x) for x in items]
+            if n != len(items) or [tuple(x) if isinstance(x, (tuple, list)) else x for x in got] != want:
+                self.violation("aligned-after-growth", op, "state_corrupted", "appended-container", "",
+                               "a container with %d elements was appended to another one; after %s it holds %d elements: %r" % (len(items), op, n, got[:8]))
+            if with_attr:
+                a = other.get_attribute("foreign")
+                o2 = call(lambda: a.as_array(len(items)) if len(items) else None)
+                if not o2.ok or (len(items) and np.asarray(o2.value).size != len(items)):
+                    self.violation("aligned-after-growth", op, "state_corrupted", "appended-container", "attribute",
+                                   "the dense attribute of an appended container is no longer aligned with it (%d elements): %s" % (len(items), o2.brief()))
 
     def _grew(self, ref):
         if ref.attrs:
